@@ -1070,9 +1070,62 @@ def _c04_one(o, d, z, fn, dep, rising):
     return None
 
 
+def _c04_reuse(seed):
+    """one Observer object used at a high elevation, lowered to the ground, and then asked about
+    a day on which the sun only just dips below the horizon (polar-circle transition): a verdict
+    computed from anything remembered about the earlier elevation is wrong there"""
+    import zones
+    import astral.sun as sun
+    from astral import Observer
+    rng = random.Random(seed)
+    north = rng.random() < 0.5
+    alat = rng.uniform(68.0, 84.0)
+    lat = alat if north else -alat
+    lon = rng.choice([1, -1]) * rng.uniform(60.0, 120.0)
+    big = rng.uniform(1500.0, 6000.0)
+    o = Observer(lat, lon, big)
+    year = rng.randint(1950, 2080)
+    seq = ["Observer(%r, %r, %r)" % (lat, lon, big)]
+    for f in (sun.sunrise, sun.dusk):
+        try:
+            f(o, datetime.date(year, 3, 20))
+        except ValueError:
+            pass
+    seq.append("sunrise/dusk on %d-03-20; then observer.elevation = 0.0" % year)
+    o.elevation = 0.0
+    depth = rng.uniform(1.6, 2.3)                # how far the sun dips at solar midnight
+    decl = 90.0 - alat - depth
+    k = int(round(math.degrees(math.asin(max(-1.0, min(1.0, decl / 23.44)))) / 360.0 * 365.25))
+    if north:
+        cands = [datetime.date(year, 3, 20) + datetime.timedelta(days=k),
+                 datetime.date(year, 9, 22) - datetime.timedelta(days=k)]
+    else:
+        cands = [datetime.date(year, 9, 22) + datetime.timedelta(days=k),
+                 datetime.date(year + 1, 3, 20) - datetime.timedelta(days=k)]
+    z = zones.fixed(0)
+    for d0 in cands:
+        for dd in (-2, -1, 0, 1, 2):
+            d = d0 + datetime.timedelta(days=dd)
+            for rising in (True, False):
+                try:
+                    r = _c04_one(o, d, z, "rise_set", 0.0, rising)
+                except Exception as exc:  # noqa: BLE001
+                    r = "raised %r" % (exc,)
+                if r:
+                    return {"clause": r, "sequence": seq + ["%s on %s" % ("sunrise" if rising else "sunset", d)],
+                            "reuse_seed": seed}
+    return None
+
+
 def search_C04(rng, deadline, broken):
     import gens
+    n = 0
     while time.time() < deadline:
+        n += 1
+        if n % 3 == 0:
+            r = _c04_reuse(rng.randrange(1 << 40))
+            if r:
+                return r
         o, d, z = _sun_inputs(rng)
         if isinstance(o.elevation, tuple) or abs(o.latitude) > 89.8:
             continue
@@ -1091,6 +1144,8 @@ def search_C04(rng, deadline, broken):
 
 
 def replay_C04(fi):
+    if "reuse_seed" in fi:
+        return _c04_reuse(fi["reuse_seed"]) is None
     return _c04_one(_obs_from_descr(fi["observer"]), datetime.date.fromisoformat(fi["date"]),
                     _zone_from_descr(fi["zone"]), fi["function"], fi["dep"], fi["rising"]) is None
 
